@@ -252,6 +252,13 @@ Theorem C01_match : forall a b, canonical a && canonical b = true -> dom_dyad "e
   m_dyad "eval_dyad_match" a b = s_dyad "eval_dyad_match" a b.
 Proof. exact (match_holds eq_refl eq_refl). Qed.
 Print Assumptions C01_match.
+(* Find in a list: the positions of the members that match the needle (any needle: atom, string, symbol, list;
+   any haystack: vector, matrix, nested / mixed list) — closed over the same two regenerated flags *)
+Theorem C01_find_in_list : forall l b, canonical (VL l) && canonical b = true ->
+  dom_dyad "eval_dyad_find" (VL l) b = true ->
+  m_dyad "eval_dyad_find" (VL l) b = s_dyad "eval_dyad_find" (VL l) b.
+Proof. exact (find_list_holds eq_refl eq_refl). Qed.
+Print Assumptions C01_find_in_list.
 (* with an early exit on unequal .shape the result depends on the representation: a slice of a mixed list vs a literal *)
 Theorem C01_match_shape_exit_refuted :
   let a := VL [VL [VI 1; VI 2]; VL [VI 3; VI 4]] in
